@@ -79,7 +79,7 @@ var profiles = map[string]Profile{
 	"C12": {Name: "C12", FaultPct: 40, W: weights{"Set": 10, "SetRaw": 2, "Add": 3, "Delete": 4, "Remove": 1, "WriteCas": 4, "Update": 3, "Incr": 2, "SetXattrs": 4, "UpdateXattrs": 2,
 		"WriteWithXattrs": 4, "WriteTombstoneWithXattrs": 3, "WriteResurrectionWithXattrs": 2, "DeleteWithXattrs": 2, "WriteUpdateWithXattrs": 2, "WriteSubDoc": 2,
 		"Touch": 1, "Purge": 2, "SetWithMeta": 2, "DeleteWithMeta": 1, "PutDDoc": 5, "DelDDoc": 1, "View": 22, "Reopen": 1}, MinOps: 8, MaxOps: 30, MaxKeys: 4, MaxColl: 2, OnDiskPct: 20, ReopenPct: 50, ExpPct: 5, ViewBodies: true},
-	"C19": {Name: "C19", W: weights{"Set": 10, "Add": 3, "Delete": 4, "Remove": 1, "WriteCas": 4, "Update": 3, "Incr": 2, "SetXattrs": 4, "UpdateXattrs": 2,
+	"C19": {Name: "C19", W: weights{"Set": 10, "SetRaw": 4, "Add": 3, "Delete": 4, "Remove": 1, "WriteCas": 4, "Update": 3, "Incr": 2, "SetXattrs": 4, "UpdateXattrs": 2,
 		"WriteWithXattrs": 4, "WriteTombstoneWithXattrs": 3, "WriteResurrectionWithXattrs": 2, "DeleteWithXattrs": 2, "WriteUpdateWithXattrs": 2, "WriteSubDoc": 2,
 		"Touch": 1, "Purge": 2, "Query": 20, "Reopen": 1, "RecreateColl": 2, "DeleteSubDocPaths": 3, "RemoveXattrs": 2}, MinOps: 6, MaxOps: 26, MaxKeys: 4, MaxColl: 3, OnDiskPct: 50, ReopenPct: 50, ExpPct: 5, ViewBodies: true, JSONOnly: true},
 	"C14": {Name: "C14", FaultPct: 40, W: weights{"Set": 6, "SetRaw": 3, "Add": 4, "AddRaw": 2, "WriteCas": 5, "Delete": 3, "Remove": 1, "Update": 3, "Incr": 3, "Touch": 8, "GetAndTouchRaw": 4,
@@ -612,6 +612,7 @@ func (g *gen) op(kind string) Op {
 		op.Key = ""
 	case "RecreateColl":
 		op.Key = ""
+		op.Dur = g.r.Intn(100)
 		if g.ncoll > 1 {
 			op.Coll = 1 + g.r.Intn(g.ncoll-1)
 		}
@@ -809,7 +810,9 @@ func (g *gen) viewParams() string {
 			parts = append(parts, `"inclusive_end":false`)
 		}
 	case 4:
-		parts = append(parts, fmt.Sprintf(`"keys":[%s,%s]`, key(), key()))
+		// (never reduced: sg-bucket, a trusted dependency, picks one row per requested key before it
+		// reduces, so what a reduced keys-query counts is its business, not rosmar's)
+		parts = append(parts, fmt.Sprintf(`"keys":[%s,%s]`, key(), key()), `"reduce":false`)
 		return "{" + joinComma(parts) + "}"
 	}
 	if g.r.Chance(30) {
